@@ -416,11 +416,10 @@ class FcpV2Transformer(Transformer):
             self.error_logger.add_source(filename.name, source)
             fcp_ast = fcp_parser.parse(source)
         except (UnexpectedCharacters, UnexpectedEOF) as e:
+            line = e.line if e.line > 0 else len(source.split("\n"))
             return error(
                 self.error_logger.log_lark(filename.name, e),
-                Token(
-                    MetaData(e.line, e.line, e.column, e.column, 0, 0, str(filename))
-                ),
+                Token(MetaData(line, line, e.column, e.column, 0, 0, str(filename))),
             )
 
         fcp = FcpV2Transformer(
